@@ -18,7 +18,7 @@ def run(ctx):
     traces = ctx.path("traces.ndjson")
     jobs = ctx.path("jobs.ndjson")
     p = vlib.run_harness(ctx, binary, ["lzh-hostile", "--out", traces, "--jobs", jobs, "--stride", "5" if quick else "1",
-                                       "--random", "3000" if quick else "100000", "--survivors", "400" if quick else "20000"], timeout=6000)
+                                       "--random", "3000" if quick else "100000", "--survivors", "600" if quick else "20000"], timeout=6000)
     if p.returncode != 0:
         raise vlib.Undecided("lzh-hostile failed (a crash of the harness process is attributed to the Reader): rc=%d %s" % (p.returncode, p.stderr[-3000:]))
     st = json.loads(p.stdout.strip().splitlines()[-1])
